@@ -84,6 +84,9 @@ func applyTouches(fset *token.FileSet, f *ast.File, pkg, file string) {
 func main() {
 	mode, out := os.Args[1], os.Args[2]
 	repo := "/repo"
+	if r := os.Getenv("VERIF_ALT_REPO"); r != "" {
+		repo = r // development only (bin/seedtest.sh on a scratch copy while /repo is in use); the registered checks never set it
+	}
 	if r := os.Getenv("VERIF_REPO"); r != "" {
 		repo = r
 	}
